@@ -507,6 +507,14 @@ class Evolver:
                                              "values": [{"name": n, "value": v} for n, v in vals]})
             self.new_enums.append(name)
             self.edits.append({"edit": "E3-new-enum", "name": name, "base": "string", "values": [v for _, v in vals]})
+            # two names for one value, as LanguageKind and ErrorCodes have them in the committed model
+            for base_, pairs in (("string", [("Shell", "shellscript"), ("Bash", "shellscript"), ("Other", "other")]), ("uinteger", [("Low", 1), ("Lowest", 1), ("High", 2)])):
+                dn = self.fresh_type_name("VeDup")
+                self.doc["enumerations"].append({"name": dn, "type": {"kind": "base", "name": base_}, "values": [{"name": n, "value": v} for n, v in pairs]})
+                self.new_enums.append(dn)
+                self.closed_enums.append(dn)
+                self.edits.append({"edit": "E3-new-enum", "name": dn, "base": base_, "values": [v for _, v in pairs]})
+            self.e_new_property(force="ref-enum")
             return self.e_new_property(force="ref-enum")
         if focus == "and-registration-options":
             # an item that re-declares a property of its parent with another integer kind / null-admission: the nearest wins
